@@ -183,4 +183,8 @@ def reapply_tasks(tier: str, seed: int, cap=None) -> List[dict]:
                              max_paths=1500 if tier == "quick" else 4000, timeout_ms=4000 if tier == "quick" else 20000))
             if "(g)" in text_eff and len(tasks) % 2 == 0:
                 tasks.append(with_undefined_fluent(tasks[-1]))
+            elif "(g)" in text_eff:
+                # applied once, after the same operator object was applied to a state that defines every fluent
+                tasks.append(with_undefined_fluent(dict(tasks[-1], mode="apply", after_other_state=True,
+                                                        label="AFTER ANOTHER STATE " + text_eff)))
     return tasks
